@@ -137,7 +137,7 @@ PROPS["C18"]["steps"].append(
     dict(kind="kani", crate="humphrey_ws", module="in_ws", tag="c18sha", jobs=1, mem_gb=40, harnesses=[
         H("c18_sha1_pad_n%03d" % n, "bounded", "the REAL SHA1Hash::hash on one %d-byte message equals an independent RFC 3174 transcription (padding rule: 0x80, zeros, "
           "64-bit length, block count) -- the padding depends on the length only, so this decides section 4 of the real code at this length" % n,
-          bound="message length %d, one fixed content" % n, tier=("quick" if n == 56 else "thorough"), timeout=1800)
+          bound="message length %d, one fixed content" % n, tier=("quick" if n == 56 else "thorough"), timeout=1800, playback=False)
         for n in (0, 1, 54, 55, 56, 57, 60, 63, 64, 119, 120)
     ]))
 
